@@ -203,6 +203,7 @@ func init() {
 		"combine":           func(parent chainnodeAlias) Node { return parent.Combine(nil) },
 		"alert":             func(parent chainnodeAlias) Node { return parent.Alert() },
 		"barrier":           func(parent chainnodeAlias) Node { return parent.Barrier() },
+		"trickle":           func(parent chainnodeAlias) Node { return parent.Trickle() },
 	}
 
 	multiParents = map[string]func(chainnodeAlias, []Node) Node{
@@ -599,6 +600,7 @@ type chainnodeAlias interface {
 	Sum(string) *InfluxQLNode
 	SwarmAutoscale() *SwarmAutoscaleNode
 	Top(int64, string, ...string) *InfluxQLNode
+	Trickle() *TrickleNode
 	Union(...Node) *UnionNode
 	Wants() EdgeType
 	Window() *WindowNode
